@@ -50,7 +50,9 @@ def conditions(cfg):
     return {
         "healthy": [],
         "unsynced": [("write", "d1", "n", 1500, 0), ("rm", "d1", "b"), ("write", "d2", "c", 1200, 1), ("mv", "d2", "a", "d2", "a2"),
-                     ("write", "d2", "z0", 0, 1), ("write", "d1", "t1", 200, 0, 0)],
+                     ("write", "d2", "z0", 0, 1), ("write", "d1", "t1", 200, 0, 0),
+                     # a file recorded with a zero sub-second stamp, rewritten since (other seconds, again zero sub-second)
+                     ("write", "d1", "dir/t0", 300, 1, 0)],
         "damaged": [("dmg-data", "d1", "a"), ("rm", "d2", "c"), ("dmg-parity", 0), ("rm", "d1", "ln"), ("rmdir", "d1", "ed")],
         "partial-loss": [("emptydisk", "d1")],
         # some files of each disk missing, the others intact (a partial fix must not touch the intact ones)
